@@ -323,15 +323,34 @@ macro_rules! slots {
                 _ => panic!("slot index out of range"),
             }
         }
+        /// the entry point generated code uses
+        fn static_of(i: usize) -> TypeId {
+            match i {
+                $($n => TypeId::compute::<Slot<$n>>(),)*
+                _ => panic!("slot index out of range"),
+            }
+        }
     };
 }
 slots!(0 1 2 3 4 5 6 7 8 9 10 11 12 13 14 15 16 17 18 19 20 21 22 23 24 25 26 27 28 29 30 31 32 33 34 35 36 37 38 39 40 41 42 43 44 45 46 47 48 49 50 51 52 53 54 55 56 57 58 59 60 61 62 63);
 
 const MAX_SLOTS: usize = 64;
 
+thread_local! {
+    /// set when the two public entry points disagreed on some layout
+    static ENTRY_POINTS_DISAGREE: RefCell<Option<String>> = const { RefCell::new(None) };
+}
+
+/// The type id of `root` through both public entry points (`TypeId::compute::<T>()`, which
+/// generated code calls, and `TypeId::compute_from_dyn`); a disagreement is remembered.
 fn type_id(g: &Graph, root: usize) -> TypeId {
     GRAPH.with(|c| *c.borrow_mut() = Some(g.clone()));
-    TypeId::compute_from_dyn(dyn_of(root))
+    let a = TypeId::compute_from_dyn(dyn_of(root));
+    let b = static_of(root);
+    if a != b {
+        ENTRY_POINTS_DISAGREE.with(|c| *c.borrow_mut() = Some(format!("compute_from_dyn = {}, compute::<T>() = {} for the same layout (root slot {})", a.0, b.0, root)));
+    }
+    a
 }
 
 // ------------------------------------------------------------------------------------------------
@@ -1115,6 +1134,7 @@ impl Check for C20 {
         let res = guarded(|| {
             let mut problems: Vec<(String, String)> = Vec::new();
             let mut obs: Vec<(String, u64)> = Vec::new();
+            ENTRY_POINTS_DISAGREE.with(|c| *c.borrow_mut() = None);
             let id0 = type_id(&g, root);
             // determinism
             if type_id(&g, root) != id0 {
@@ -1154,6 +1174,9 @@ impl Check for C20 {
                 if ir.resolve(g.lex(c)) != Some(want) {
                     problems.push(("reference-unresolved".into(), format!("reference to node {} does not resolve to its id", c)));
                 }
+            }
+            if let Some(d) = ENTRY_POINTS_DISAGREE.with(|c| c.borrow_mut().take()) {
+                problems.push(("entry-points-disagree".into(), format!("the id depends on the entry point or on what was computed before: {}", d)));
             }
             let intro = Introspection::from_ir(ir);
             match SerializedValue::serialize(&intro) {
